@@ -73,6 +73,9 @@ def stability(rec):
     c, S, dt = rec["S"].const, rec["S"], rec["dt"]
     if rec["dim"] == "homogeneous":
         return dict(inside=True)
+    if rec["dim"] == "spatial_2D":
+        h = sr.max2d_hypotheses(S, dt)       # the hypotheses of C07_2D_cooling_step_max_principle
+        return dict(h, inside=all(h.values()))
     lam = c["solid_fraction"] * c["lambda_s"] + (1 - c["solid_fraction"]) * c["lambda_w"]
     dz = c["height"] / 30
     F = lam / (c["cp_solution"] * c["rho_l"]) * dt / dz ** 2
@@ -88,7 +91,7 @@ def check(rep, tier):
                 "the 0D and 1D step models are tied to the code by one-step binary64 correspondence on sampled saved steps (cooling incl. the vacuum window, nucleation, solidification); "
                 "non-trivial = completed run")
     rep.trusted = ["Coq 8.16.1 kernel + vm_compute", "binary64 instance of model/Sn1D.v (tolerance 2^-30)", "evaporative flux values are computed by utils.py and passed to the model (C20 covers utils.py)",
-                   "2D: one-step correspondence with the in-place sweep model model/Sn2D.v; no theorems about it"]
+                   "2D: one-step correspondence with the in-place sweep model model/Sn2D.v; cooling-stage max principle proved for that sweep, its hypotheses evaluated on every 2D run (counts inside/outside-stability 2D)"]
     recs = sr.catalogue(rng, tier, n0=3, n1=3 if tier == "quick" else 9, n2=1 if tier == "quick" else 5)
     recs += sr.catalogue(rng, tier, dims=("homogeneous", "spatial_1D"), cn=True, n0=1, n1=1)
     c1, c0, l1, l0, c2, l2 = [], [], [], [], [], []
@@ -98,7 +101,7 @@ def check(rep, tier):
             rep.case(lab, nontrivial=False); rep.count("raised"); continue
         st = stability(rec)
         rep.case(lab, nontrivial=True, sample=dict(run=lab, stability=st) if len(rep.samples) < 4 else None)
-        rep.count(rec["dim"] + "/" + rec["conf"]); rep.count("inside-stability" if st["inside"] else "outside-stability")
+        rep.count(rec["dim"] + "/" + rec["conf"]); rep.count(("inside-stability" if st["inside"] else "outside-stability") + (" 2D" if rec["dim"] == "spatial_2D" else ""))
         if st["inside"]:
             bounds_oracle(rep, rec)
         if rec["dim"] == "spatial_1D":
